@@ -23,9 +23,6 @@ def rscript (r : Out Acc.Scriptlet) : String :=
     s!"ok:{hx sc.script},{f},{p}"
   | _ => "err"
 
-/-- the texts `CompressionType::from_str` accepts: the table scraped from src/rpm/compressor.rs (`Gen.compressionFromStr`) -/
-def knownCompressors : List Bytes := Acc.compressorNames
-
 def scr (h : Header) (k : String) : Out Acc.Scriptlet :=
   match scriptletTags.find? (·.1 == k) with
   | some (_, a, b, c) => getScriptlet h (a, b, c)
@@ -76,8 +73,9 @@ def dump (m : Metadata) (tbl : List (Nat × Nat) := fileDigestHexLen) : String :
     "enhances=" ++ dep IndexTag.RPMTAG_ENHANCENAME IndexTag.RPMTAG_ENHANCEFLAGS IndexTag.RPMTAG_ENHANCEVERSION,
     "supplements=" ++ dep IndexTag.RPMTAG_SUPPLEMENTNAME IndexTag.RPMTAG_SUPPLEMENTFLAGS IndexTag.RPMTAG_SUPPLEMENTVERSION,
     "size=" ++ rn (getInstalledSize h),
-    "compressor=" ++ (match getPayloadCompressor knownCompressors h with
-      | .ok v => "ok:" ++ RpmVerif.Driver.stringOfCodePoints (v.map UInt8.toNat) | _ => "err"),
+    -- the variant is printed by the model of `impl Display` (Gen.compressionDisplay), as the harness prints the real one
+    "compressor=" ++ (match getPayloadCompressorVariant h with
+      | .ok v => "ok:" ++ RpmVerif.Driver.stringOfCodePoints (RpmVerif.Compression.toStr v) | _ => "err"),
     "paths=" ++ (match getFilePaths h with | .ok v => "ok:[" ++ sep ";" (v.map hx) ++ "]" | _ => "err"),
     "fdalgo=" ++ rn (getFileDigestAlgorithm h),
     "files=" ++ (match getFileEntries m.signature h tbl with
